@@ -128,6 +128,7 @@ def make_class(name: str, desc):
 
     def define(cls, spec):
         super(klass, cls).define(spec)
+        spec.input('d', valid_type=int, default=1)   # only present through its default when no inputs are passed
         spec.outline(*_build_block(cls, desc, [0, 0]))
 
     ns['define'] = classmethod(define)
